@@ -433,7 +433,10 @@ class HDF5FileSingleton(metaclass=SingleInstancePerFileAttribute):
         self.__keep_open = True
         yield
         self.__keep_open = False
-        self.__close()
+        # The file is opened lazily: there is nothing to close
+        # when no file operation was done.
+        if self.__file is not None:
+            self.__close()
 
     def __close(self) -> None:
         """Close the file handle."""
